@@ -103,3 +103,31 @@ func VerifC05ResetEntryLimiters() {
 	rateLimiterPools = make(map[int]*sharedRateLimiterPool)
 	poolsMu.Unlock()
 }
+
+// VerifC05PrefetchClaims lists the entries that currently hold a prefetch
+// claim (a background refresh is queued or running for them). Accessor only.
+func VerifC05PrefetchClaims(c *Cache) []*CacheEntry {
+	var out []*CacheEntry
+	c.store.ForEach(func(_ bool, _ uint64, e *CacheEntry) bool {
+		if e.prefetch.Load() {
+			out = append(out, e)
+		}
+		return true
+	})
+	return out
+}
+
+// VerifC05PrefetchBusy reports whether a refresh is still queued or any of the
+// given claims is still held (the claim is released as the last act of the
+// refresh worker, after write-back and cut publication).
+func VerifC05PrefetchBusy(c *Cache, claims []*CacheEntry) bool {
+	if c.prefetchQueue != nil && len(c.prefetchQueue.items) > 0 {
+		return true
+	}
+	for _, e := range claims {
+		if e.prefetch.Load() {
+			return true
+		}
+	}
+	return false
+}
